@@ -85,6 +85,7 @@ class C12(Check):
     QUICK_S = 75
     THOROUGH_S = 1500
     CHUNK = 20
+    CANARY_N = 4
     RULE = ('one evaluation = one simulated history of 2-8 process lifetimes (real Lark(..., cache=...) constructor + behavioural probes) '
             'against one simulated disk, with seeded faults between lifetimes (content damage, splices, stale files for another '
             'grammar/options/import/version/base directory) and inside them (errno on any FS call, short writes, writer crash with kill / '
